@@ -275,7 +275,7 @@ def evaluate(facts, n, conc):
     f = full_unit(facts, facts.fn(PA))
     adt = facts.adt("happy_eyeballs::EyeballSet")
     fl = adt["variants"][0]["fields"]
-    qi = [i for i, x in enumerate(fl) if re.search(r"VecDeque<", x["ty"])]
+    qi = [i for i, x in enumerate(fl) if re.search(r"VecDeque<|^std::vec::Vec<|^alloc::vec::Vec<", x["ty"])]
     ti = [i for i, x in enumerate(fl) if re.search(r"FuturesUnordered<", x["ty"])]
     ei = [i for i, x in enumerate(fl) if re.search(r"Option<.*HappyEyeballsError<", x["ty"])]
     ci = [i for i, x in enumerate(fl) if re.search(r"^std::option::Option<usize>$", x["ty"])]
@@ -395,3 +395,82 @@ def table(ctx, facts, label="process_all", only=None):
                   % (n, c, len(want)),
                   "%d candidates, initial concurrency %s: %s(%d unexpected, %d missing of %d)" % (n, c, why, len(extra), len(lost), len(want)))
     ctx.floor("%s|trace-table-rows" % label, rows, len(scenarios), "scenarios evaluated")
+
+
+# ---------------------------------------------------------------------------------------------------------------------------
+# join_next: the contract the process_all table relies on, as a decision table of its own
+
+JN = "happy_eyeballs::EyeballSet::join_next::{closure#0}"
+
+
+def join_next_table(ctx, facts, label="join_next"):
+    """One call of `join_next` looks at exactly one completed task (one await of `tasks.next()`), and answers: Some(Ok(x)) ->
+    Eyeball::Ok(x) (the value unchanged); Some(Err(e)) -> Eyeball::Error, and e is remembered iff no earlier failure was;
+    None -> Eyeball::Exhausted.  Evaluated abstractly (the await is a nondeterministic step with these three outcomes) for
+    both states of the remembered error."""
+    fn = facts.fn(JN)
+    pats = [re.compile(p) for p, _ in EXTRA_RAW + seqmodel.RAW_ORACLES]
+    u = inline.inline(facts, fn, 4, lambda ck, raw: "::_::" not in ck and not any(rx.search(norm(ck)) for rx in pats) and not re.search(r"StreamExt.*::next$", norm(ck)), expand=True)
+    ctx.touched(u)
+    adt = facts.adt("happy_eyeballs::EyeballSet")
+    fl = adt["variants"][0]["fields"]
+    ei = [i for i, x in enumerate(fl) if re.search(r"Option<.*HappyEyeballsError<", x["ty"])]
+    if len(ei) != 1:
+        return ctx.missing("%s|error-field" % label, "EyeballSet has no single Option<HappyEyeballsError> field")
+    cap = facts._capture_index(fn, "cap:self")
+    TR = -TRACE
+
+    def o_next(ev, st, t, site):
+        return _set_dest(st, t, ("const", "NEXT"))
+
+    def o_poll_next(ev, st, t, site):
+        v = _deref(st, _arg(ev, st, t, 0))
+        if v != ("const", "NEXT"):
+            return False
+        n = len((st.get(TR) or ("list", ()))[1])
+        alts = []
+        outs = [("Some(Ok)", some(("variant", "Ok", ((0, ("const", "OUT")),)))), ("Some(Err)", some(("variant", "Err", ((0, ("const", "ERR_NEW")),)))), ("None", NONE)]
+        if n >= 3:
+            outs = outs[2:]       # bound the exploration of a body that keeps polling
+        for name, payload in outs:
+            s2 = dict(st)
+            _event(s2, "next:" + name)
+            s2[t["dest"]["l"]] = ("variant", "Ready", ((0, payload),))
+            alts.append(s2)
+        return alts
+    raw = [(r"StreamExt.*::next$", o_next), (r"IntoFuture.*::into_future$|Pin.*::new_unchecked$|Pin.*::new$|Pin.*::as_mut$", o_identity),
+           (r"Future.*::poll$", o_poll_next), (r"Option.*::take$|mem::take$", o_take), (r"Option.*::map$|Result.*::map$", o_map_ctor)]
+    rows = 0
+    for had in (False, True):
+        fields = {i: ("const", "FIELD_" + x["name"]) for i, x in enumerate(fl)}
+        fields[ei[0]] = some(("variant", "Error", ((0, ("const", "ERR_OLD")),))) if had else NONE
+        st = {1: ("variant", "{coroutine}", ((cap if cap is not None else 0, ("refmut", SELF)),)), SELF: ("variant", "EyeballSet", tuple(sorted(fields.items()))), TR: ("list", ())}
+
+        def err_of(st_):
+            this = st_.get(SELF)
+            return dict(this[2]).get(ei[0]) if this is not None and this[0] == "variant" else None
+        key = "%s|table|error-%s" % (label, "remembered" if had else "none-yet")
+        try:
+            outs = AbsPaths(u, limit=20000, raw_oracles=raw, oracles=[INT_CMP, VALUE_EQ]).outcomes(state=st, extra_keys=(TR, err_of))
+        except AbsPaths.Undecided as e:
+            ctx.undecided(key, str(e))
+            continue
+        rows += 1
+        got = set()
+        for (rv, _, (trace, err)) in outs:
+            got.add((tuple(e[1] for e in trace[1]) if trace is not None else None, _show(rv), _show(err)))
+        old = "Some(Error(ERR_OLD))"
+        want = {(("next:Some(Ok)",), "Ok(OUT)", old if had else "None"),
+                (("next:Some(Err)",), "Error", old if had else "Some(Error(ERR_NEW))"),
+                (("next:None",), "Exhausted", old if had else "None")}
+        extra = sorted(got - want, key=repr)
+        lost = sorted(want - got, key=repr)
+        why = ""
+        if extra:
+            why += "the code can do %s -> %s with the remembered error then %s; " % (list(extra[0][0]) if extra[0][0] is not None else "?", extra[0][1], extra[0][2])
+        if lost:
+            why += "required but impossible: %s -> %s with the remembered error then %s; " % (list(lost[0][0]), lost[0][1], lost[0][2])
+        ctx.check(not extra and not lost, key,
+                  "one call looks at exactly one finished task: success -> Eyeball::Ok(value), failure -> Eyeball::Error (remembered iff it is the first), nothing running -> Exhausted",
+                  "%s(%d unexpected, %d missing)" % (why, len(extra), len(lost)), u.where())
+    ctx.floor("%s|table-rows" % label, rows, 2, "scenarios evaluated")
